@@ -33,6 +33,8 @@ func init() {
 	extraRules["C08"] = append(extraRules["C08"], func(p *Program, r *Report) {
 		moreRangeArith(p, r, "R-C08-5", "backend.ParseCopySourceRange", -1)
 	})
+	extraRules["C13"] = append(extraRules["C13"], moreRangeConsumers)
+	extraRules["C08"] = append(extraRules["C08"], moreCopyRangeConsumer)
 	extraRules["C07"] = append(extraRules["C07"], moreWalkMarker)
 	extraRules["C12"] = append(extraRules["C12"], moreStashOnce)
 	extraRules["C03"] = append(extraRules["C03"], moreWildcardOnlyForStar)
@@ -56,6 +58,13 @@ func init() {
 			New: "\t\t_ = rdr\n\t\tpayload, err := ucr.reader.Peek(int(chunkSize))\n\t\tif err != nil {\n\t\t\treturn 0, io.ErrUnexpectedEOF\n\t\t}\n\t\tucr.hasher.Write(payload)\n\t\tucr.reader.Discard(int(chunkSize))\n", Expect: "Peek"},
 	}
 	extraControls["C13"] = []Control{
+		{Name: "revert fix 8b5c3e3: directory object range parsed against the inode size", Rule: "R-C13-6", File: "backend/posix/posix.go",
+			Old: "\tobjSize := fi.Size()\n\tif fi.IsDir() {\n\t\t// directory objects are always 0 len\n\t\tobjSize = 0\n\t}\n\n\tstartOffset, length, isValid, err := backend.ParseGetObjectRange(objSize, *input.Range)\n\tif err != nil {\n\t\treturn nil, err\n\t}\n",
+			New: "\tobjSize := fi.Size()\n\tstartOffset, length, isValid, err := backend.ParseGetObjectRange(objSize, *input.Range)\n\tif err != nil {\n\t\treturn nil, err\n\t}\n\n\tif fi.IsDir() {\n\t\t// directory objects are always 0 len\n\t\tobjSize = 0\n\t\tlength = 0\n\t}\n", Expect: "first<=last"},
+		{Name: "Content-Range last position off by one", Rule: "R-C13-6", File: "backend/posix/posix.go",
+			Old: "\t\t\tstartOffset, startOffset+length-1, objSize)", New: "\t\t\tstartOffset, startOffset+length, objSize)", Expect: "last<total"},
+		{Name: "GetObject body window one byte longer than Content-Length", Rule: "R-C13-6", File: "backend/posix/posix.go",
+			Old: "\t\trdr := io.NewSectionReader(f, startOffset, length)", New: "\t\trdr := io.NewSectionReader(f, startOffset, length+1)", Expect: "n==length"},
 		{Name: "range end clipped with > instead of >=", Rule: "R-C13-5", File: "backend/common.go",
 			Old: "\tif endOffset >= size {\n\t\treturn startOffset, size - startOffset, true, nil\n\t}\n", New: "\tif endOffset > size {\n\t\tendOffset = size - 1\n\t}\n", Expect: "within-object"},
 		{Name: "range length computed before clipping (wraps at MaxInt64)", Rule: "R-C13-5", File: "backend/common.go",
@@ -64,6 +73,10 @@ func init() {
 			Old: "\tif startOffset >= size {\n\t\treturn 0, 0, false, errInvalidRange\n\t}", New: "\tif startOffset > size {\n\t\treturn 0, 0, false, errInvalidRange\n\t}", Expect: "non-empty"},
 	}
 	extraControls["C08"] = []Control{
+		{Name: "UploadPartCopy reads from offset start+1", Rule: "R-C08-6", File: "backend/posix/posix.go",
+			Old: "\trdr := io.NewSectionReader(srcf, startOffset, length)", New: "\trdr := io.NewSectionReader(srcf, startOffset+1, length)", Expect: "offset==start"},
+		{Name: "UploadPartCopy preallocates one byte more than it copies", Rule: "R-C08-6", File: "backend/posix/posix.go",
+			Old: "\t\t*upi.Bucket, partPath, length, acct, doFalloc, p.forceNoTmpFile)", New: "\t\t*upi.Bucket, partPath, length+1, acct, doFalloc, p.forceNoTmpFile)", Expect: "size==length"},
 		{Name: "revert fix d976847: open-ended copy range one byte too long", Rule: "R-C08-5", File: "backend/common.go",
 			Old: "\tif bRange[1] == \"\" {\n\t\treturn startOffset, size - startOffset, nil\n\t}", New: "\tif bRange[1] == \"\" {\n\t\treturn startOffset, size - startOffset + 1, nil\n\t}", Expect: "within-object"},
 	}
@@ -1108,7 +1121,7 @@ func moreRangeArith(p *Program, r *Report, rule, fn string, validIdx int) {
 		if len(res) < 3 || !isNilConst(res[len(res)-1]) {
 			continue
 		}
-		if len(a.in[ret.Block()]) == 0 {
+		if len(a.out[ret.Block()]) == 0 {
 			continue // unreachable
 		}
 		key := fn + "/return#" + itoa(i+1)
@@ -1118,7 +1131,7 @@ func moreRangeArith(p *Program, r *Report, rule, fn string, validIdx int) {
 		}
 		n++
 		b := ret.Block()
-		type sm = map[*ssa.Phi]lin
+		type sm = *part
 		ok, w := a.impliedAt(b, func(sub sm) (lin, bool) {
 			st, ok := a.linIn(res[0], sub)
 			return st.neg(), ok
@@ -1164,6 +1177,248 @@ func moreRangeArith(p *Program, r *Report, rule, fn string, validIdx int) {
 	if n < 1 || nAx < 2 {
 		broken("%s: %s: only %d successful returns / %d parsed offsets recognised", rule, fn, n, nAx)
 	}
+}
+
+// ---- R-C13-6: the numbers the posix backend derives from the parsed range -------------------------------
+
+type rangeModel struct {
+	a      *zoneAI
+	call   *ssa.Call
+	sS, sE int
+	sizeV  ssa.Value
+	curLen func(pt *part) (lin, bool)
+	cell   *ssa.Alloc
+}
+
+// modelRangeCall analyses f with the (proven, R-C13-5 / R-C08-5) postcondition of the range parser it
+// calls: start is a symbol, length is (start+length) - start with 0 <= start <= start+length <= size,
+// and start+1 <= start+length where the valid flag (result validIdx, if any) holds.
+func modelRangeCall(p *Program, r *Report, rule string, f *ssa.Function, parser string, validIdx int) *rangeModel {
+	cs := callsTo(f, parser)
+	if len(cs) != 1 {
+		r.Viol(rule, fnName(f)+"/"+parser, p.Pos(f.Pos()), "expected exactly one call of the range parser")
+		return nil
+	}
+	c := cs[0].(*ssa.Call)
+	ex := map[int]*ssa.Extract{}
+	for _, ref := range *c.Referrers() {
+		if e, ok := ref.(*ssa.Extract); ok {
+			ex[e.Index] = e
+		}
+	}
+	if ex[0] == nil || ex[1] == nil || (validIdx >= 0 && ex[validIdx] == nil) {
+		r.Viol(rule, fnName(f)+"/parser-results", p.Pos(c.Pos()), "start, length or the valid flag of the parser is discarded")
+		return nil
+	}
+	a := newZoneAI(p, f)
+	m := &rangeModel{a: a, call: c, sS: a.sym(ex[0]), sE: a.sym(c), sizeV: callArgs(c)[0]}
+	a.names[m.sE] = "start+length"
+	a.names[m.sS] = "start"
+	a.override[ex[1]] = linSym(m.sE).plus(linSym(m.sS), -1)
+	zero := big.NewInt(0)
+	a.axioms = func(v ssa.Value) (lo, hi *big.Int) {
+		if v == ssa.Value(ex[0]) || v == ssa.Value(c) {
+			return zero, nil
+		}
+		// os.FileInfo.Size of an existing file
+		if cc, ok := v.(*ssa.Call); ok && cc.Common().IsInvoke() && cc.Common().Method.Name() == "Size" {
+			return zero, nil
+		}
+		return nil, nil
+	}
+	a.setup = func(a *zoneAI, top *zone) { top.add(m.sS, m.sE, zero) }
+	a.callFacts[c] = append(a.callFacts[c], func(a *zoneAI, pt *part) (lin, bool) {
+		sz, ok := a.linIn(m.sizeV, pt)
+		return linSym(m.sE).plus(sz, -1), ok // start+length <= size
+	})
+	if validIdx >= 0 {
+		a.boolFacts[ex[validIdx]] = append(a.boolFacts[ex[validIdx]], func(a *zoneAI) lin {
+			return linSym(m.sS).plus(linSym(m.sE), -1).plus(linConst(big.NewInt(1)), 1) // start+1 <= start+length
+		})
+	}
+	a.run()
+	for _, ref := range *ex[1].Referrers() {
+		if st, ok := ref.(*ssa.Store); ok {
+			if al, ok := st.Addr.(*ssa.Alloc); ok && a.cells[al] {
+				m.cell = al
+			}
+		}
+	}
+	m.curLen = func(pt *part) (lin, bool) {
+		if m.cell != nil {
+			l, ok := pt.mem[m.cell]
+			return l, ok
+		}
+		return a.linIn(ex[1], pt)
+	}
+	return m
+}
+
+// sectionReaderObligations: every io.NewSectionReader of f opens exactly the parsed window.
+func (m *rangeModel) sectionReaderObligations(p *Program, r *Report, rule string, f *ssa.Function) int {
+	a := m.a
+	nSec := 0
+	for _, sc := range callsTo(f, "io.NewSectionReader") {
+		nSec++
+		args := callArgs(sc)
+		key := fnName(f) + "/section-reader#" + itoa(nSec)
+		ok1, w := a.equalAt(sc.Block(), func(pt *part) (lin, bool) { return a.linIn(args[1], pt) }, func(pt *part) (lin, bool) { return linSym(m.sS), true })
+		r.Check(ok1, rule, key+":offset==start", p.Pos(sc.Pos()), "window starts at the parsed start", "the body window does not start at the parsed start ("+w+")")
+		ok1, w = a.equalAt(sc.Block(), func(pt *part) (lin, bool) { return a.linIn(args[2], pt) }, m.curLen)
+		r.Check(ok1, rule, key+":n==length", p.Pos(sc.Pos()), "window length is the parsed (reported) length", "the window length differs from the parsed length that is also reported / preallocated ("+w+")")
+		ok1, w = a.impliedAt(sc.Block(), func(pt *part) (lin, bool) {
+			o, k1 := a.linIn(args[1], pt)
+			n, k2 := a.linIn(args[2], pt)
+			sz, k3 := a.linIn(m.sizeV, pt)
+			return o.plus(n, 1).plus(sz, -1), k1 && k2 && k3
+		})
+		r.Check(ok1, rule, key+":inside-object", p.Pos(sc.Pos()), "offset+n <= size on every trace", "the window can reach past the end of the object (offset+n-size = "+w+"): the section reader stops at EOF and fewer bytes than announced are delivered")
+	}
+	if nSec == 0 {
+		r.Viol(rule, fnName(f)+"/section-reader", p.Pos(f.Pos()), "cannot find the section reader over the object file (anchor drift)")
+	}
+	if a.joined {
+		r.Ok(rule, fnName(f)+"/traces-joined", p.Pos(f.Pos()), "more than 64 trace classes: states were joined (less precise, still sound)")
+	}
+	return nSec
+}
+
+func moreCopyRangeConsumer(p *Program, r *Report) {
+	rule := "R-C08-6"
+	r.Rule(rule, "a copied part is exactly the parsed source range (posix.UploadPartCopy, zone abstract interpretation with the parser's proven postcondition): the section reader over the source is opened at (start, length), inside the source object, and the temp file is preallocated with that same length", 4)
+	f := p.Func(posixP + "UploadPartCopy")
+	m := modelRangeCall(p, r, rule, f, "backend.ParseCopySourceRange", -1)
+	if m == nil {
+		return
+	}
+	m.sectionReaderObligations(p, r, rule, f)
+	n := 0
+	for _, oc := range callsTo(f, posixP+"openTmpFile") {
+		n++
+		args := callArgs(oc)
+		var sizeArg ssa.Value
+		for _, x := range args {
+			if _, _, ok := m.a.typeBounds(x.Type()); ok {
+				sizeArg = x
+			}
+		}
+		if sizeArg == nil {
+			r.Viol(rule, fnName(f)+"/openTmpFile#"+itoa(n)+":size", p.Pos(oc.Pos()), "openTmpFile takes no int64 size")
+			continue
+		}
+		ok1, w := m.a.equalAt(oc.Block(), func(pt *part) (lin, bool) { return m.a.linIn(sizeArg, pt) }, m.curLen)
+		r.Check(ok1, rule, fnName(f)+"/openTmpFile#"+itoa(n)+":size==length", p.Pos(oc.Pos()), "temp file preallocated with the parsed length", "the part's temp file is preallocated with a size different from the number of bytes copied ("+w+"): fallocate leaves a zero-filled tail in the stored part")
+	}
+	if n == 0 {
+		r.Viol(rule, fnName(f)+"/openTmpFile", p.Pos(f.Pos()), "cannot find the temp file of the copied part (anchor drift)")
+	}
+}
+
+func moreRangeConsumers(p *Program, r *Report) {
+	rule := "R-C13-6"
+	r.Rule(rule, "Content-Range, Content-Length and the body window are the same interval (posix.GetObject, zone abstract interpretation with the parser's proven postcondition 0 <= start <= start+length <= size, length >= 1 when valid): the formatted numbers satisfy 0 <= first <= last < total, first is the parsed start, last-first+1 is the length reported as Content-Length, total is the size the range was parsed against, and the section reader is opened at (start, that length)", 6)
+	f := p.Func(posixP + "GetObject")
+	m := modelRangeCall(p, r, rule, f, "backend.ParseGetObjectRange", 2)
+	if m == nil {
+		return
+	}
+	a, sS, sizeV, curLen, lenCell := m.a, m.sS, m.sizeV, m.curLen, m.cell
+	one := linConst(big.NewInt(1))
+	// 1. the Content-Range numbers
+	nFmt := 0
+	for _, sc := range callsTo(f, "fmt.Sprintf") {
+		fm, ok := constString(callArgs(sc)[0])
+		if !ok || !strings.HasPrefix(fm, "bytes ") {
+			continue
+		}
+		vals := variadicInts(callArgs(sc)[1])
+		if len(vals) != 3 {
+			r.Viol(rule, fnName(f)+"/content-range:three-numbers", p.Pos(sc.Pos()), "the Content-Range format is not fed three integers")
+			continue
+		}
+		nFmt++
+		b := sc.Block()
+		first := func(pt *part) (lin, bool) { return a.linIn(vals[0], pt) }
+		last := func(pt *part) (lin, bool) { return a.linIn(vals[1], pt) }
+		total := func(pt *part) (lin, bool) { return a.linIn(vals[2], pt) }
+		key := fnName(f) + "/content-range#" + itoa(nFmt)
+		ok1, w := a.impliedAt(b, func(pt *part) (lin, bool) { l, ok := first(pt); return l.neg(), ok })
+		r.Check(ok1, rule, key+":0<=first", p.Pos(sc.Pos()), "first >= 0 on every trace", "first >= 0 is not implied ("+w+")")
+		ok1, w = a.impliedAt(b, func(pt *part) (lin, bool) {
+			l1, o1 := first(pt)
+			l2, o2 := last(pt)
+			return l1.plus(l2, -1), o1 && o2
+		})
+		r.Check(ok1, rule, key+":first<=last", p.Pos(sc.Pos()), "first <= last on every trace", "first <= last is not implied (first-last = "+w+"): a Content-Range whose last position precedes the first (e.g. \"bytes 0--1/0\") is sent with a 206")
+		ok1, w = a.impliedAt(b, func(pt *part) (lin, bool) {
+			l2, o2 := last(pt)
+			l3, o3 := total(pt)
+			return l2.plus(one, 1).plus(l3, -1), o2 && o3
+		})
+		r.Check(ok1, rule, key+":last<total", p.Pos(sc.Pos()), "last < total on every trace", "last < total is not implied (last+1-total = "+w+"): the Content-Range names a position that does not exist in the object")
+		ok1, w = a.equalAt(b, first, func(pt *part) (lin, bool) { return linSym(sS), true })
+		r.Check(ok1, rule, key+":first==start", p.Pos(sc.Pos()), "first is the parsed start", "the first position is not the parsed start ("+w+")")
+		ok1, w = a.equalAt(b, func(pt *part) (lin, bool) {
+			l1, o1 := first(pt)
+			l2, o2 := last(pt)
+			return l2.plus(l1, -1).plus(one, 1), o1 && o2
+		}, curLen)
+		r.Check(ok1, rule, key+":span==content-length", p.Pos(sc.Pos()), "last-first+1 is the reported length", "last-first+1 differs from the length reported as Content-Length ("+w+")")
+		ok1, w = a.equalAt(b, total, func(pt *part) (lin, bool) { return a.linIn(sizeV, pt) })
+		r.Check(ok1, rule, key+":total==parsed-size", p.Pos(sc.Pos()), "total is the size the range was parsed against", "the total in Content-Range is not the size the range was clipped to ("+w+"): for directory objects the range is parsed against the directory inode's size but reported against 0")
+		if lenCell != nil {
+			late := ""
+			for _, ref := range *lenCell.Referrers() {
+				if st, ok := ref.(*ssa.Store); ok && st.Addr == ssa.Value(lenCell) && mayPrecede(sc, st) {
+					late = p.Pos(st.Pos())
+				}
+			}
+			r.Check(late == "", rule, key+":length-final", p.Pos(sc.Pos()), "length is not changed after the header was formatted", "the length is assigned again (at "+late+") after Content-Range was formatted from it")
+		}
+	}
+	if nFmt == 0 {
+		r.Viol(rule, fnName(f)+"/content-range", p.Pos(f.Pos()), "cannot find where Content-Range is formatted (anchor drift)")
+	}
+	// 2. the body window
+	m.sectionReaderObligations(p, r, rule, f)
+}
+
+// variadicInts: the int64 values packed into a ...any argument, by position.
+func variadicInts(v ssa.Value) []ssa.Value {
+	sl, ok := v.(*ssa.Slice)
+	if !ok {
+		return nil
+	}
+	al, ok := sl.X.(*ssa.Alloc)
+	if !ok {
+		return nil
+	}
+	out := map[int]ssa.Value{}
+	for _, ref := range *al.Referrers() {
+		ia, ok := ref.(*ssa.IndexAddr)
+		if !ok {
+			continue
+		}
+		idx, ok := constInt(ia.Index)
+		if !ok {
+			continue
+		}
+		for _, st := range storesTo(ia) {
+			x := st.Val
+			if mi, ok := x.(*ssa.MakeInterface); ok {
+				x = mi.X
+			}
+			out[int(idx)] = x
+		}
+	}
+	var res []ssa.Value
+	for i := 0; i < len(out); i++ {
+		if out[i] == nil {
+			return nil
+		}
+		res = append(res, out[i])
+	}
+	return res
 }
 
 var _ = token.ADD
